@@ -491,17 +491,19 @@ def _two_files(V):
     I.ext_models["warnings.warn"] = Builtin("warn", lambda i, a, k: None)
     trees["a.cdxml"] = page("a")
     trees["b.cdxml"] = page("b")
+    trees["c.cdxml"] = page("c")
     cls = V.cls(f"{CD}:CDXMLFile")
     V.witness(lambda ev: {"op": "getitem", "signature": "two-files"})
     V.cover()
     try:
         fa = I.call(cls, ["a.cdxml"], {})
         fb = I.call(cls, ["b.cdxml"], {})
+        fc = I.call(cls, ["c.cdxml"], {})
     except PyExc as ex:
         V.ensure("files/open", z3.BoolVal(False), raised=repr(ex.value) + repr(getattr(ex.value, "fields", None)))
         return
     V.ensure("files/open", z3.BoolVal(True))
-    for nm, f_, (root, f0, f1, lab, lab2) in (("a", fa, trees["a.cdxml"]), ("b", fb, trees["b.cdxml"])):
+    for nm, f_, (root, f0, f1, lab, lab2) in (("a", fa, trees["a.cdxml"]), ("b", fb, trees["b.cdxml"]), ("c", fc, trees["c.cdxml"])):
         xl, xf = f_.fields.get("xlabels"), f_.fields.get("xfrags")
         V.ensure(f"files/{nm}:labels-are-the-bold-single-run-text-boxes-first-occurrence-kept", z3.BoolVal(isinstance(xl, DictV) and xl.keys == ["k1", "k2"] and xl.vals[0] is lab and xl.vals[1] is lab2))
         V.ensure(f"files/{nm}:fragments-are-those-with-a-bond-in-page-then-group-order", z3.BoolVal(isinstance(xf, ListV) and len(xf.items) == 2 and xf.items[0] is f0 and xf.items[1] is f1))
@@ -516,6 +518,12 @@ def _two_files(V):
     r3 = V.method(fa, "__getitem__", ["k1"], qual=f"{CD}:CDXMLFile.__getitem__")
     ok = r1.returned and r2.returned and r3.returned and len(parsed) == 3
     V.ensure("files/lookups-return", z3.BoolVal(ok))
+    # the resolution of a label does not depend on which other labels were looked up before it
+    n0 = len(parsed)
+    rk2 = V.method(fc, "__getitem__", ["k2"], qual=f"{CD}:CDXMLFile.__getitem__")
+    rk1 = V.method(fc, "__getitem__", ["k1"], qual=f"{CD}:CDXMLFile.__getitem__")
+    V.ensure("files/label-resolution-is-independent-of-earlier-lookups",
+             z3.BoolVal(rk1.returned and len(parsed) >= n0 + 1 and parsed[-1][0] is fc and parsed[-1][1] is trees["c.cdxml"][1] and parsed[-1][2] == "k1"))
     if ok:
         V.ensure("files/each-file-resolves-its-own-fragment", z3.BoolVal(parsed[0][0] is fa and parsed[0][1] is trees["a.cdxml"][1]
                                                                         and parsed[1][0] is fb and parsed[1][1] is trees["b.cdxml"][1]
